@@ -70,7 +70,7 @@ class Sync:
             if op in ('set', 'del', 'pop', 'aset', 'adel', 'dumpk', 'loadk'):
                 k = ctx.atom(ArgSort, 'k')
             if op in ('set', 'aset'):
-                v = ctx.atom(ValSort, 'v')
+                v = None if (cfg.get('nonevals') and ctx.bool('vnone')) else ctx.atom(ValSort, 'v')      # a stored value may be None
             exc = None
             ret = None
             try:
@@ -199,5 +199,9 @@ def plan(prop, tier):
                 fl = [first] if second is None else [first, second]
                 cfgs.append({'name': 'sync/%s/first=%s/L%d' % (backend, '+'.join(fl), L), 'backend': backend, 'first': fl, 'L': L,
                              'props': ['C08'], 'weight': 2 if backend == 'dict' else 1})
+    for first in ('set', 'aset'):
+        for second in OPS:
+            cfgs.append({'name': 'sync/dict/first=%s+%s/L%d/none-values' % (first, second, 3 if q else 4), 'backend': 'dict', 'first': [first, second],
+                         'L': 3 if q else 4, 'nonevals': True, 'props': ['C08'], 'weight': 1})
     cfgs.append({'name': 'canary:sync/dict/L3', 'backend': 'dict', 'first': ['aset'], 'L': 3, 'props': ['C08'], 'canary': True})
     return cfgs
